@@ -124,7 +124,8 @@ def shape_case(draw, lmax=6, brmax=8, extra=200, methods=("cov_mm", "cov_R")):
             "seed": draw(st.integers(0, 2**32 - 1)), "alpha": draw(st.floats(-3, 3)), "beta": draw(st.floats(-3, 3)),
             "layout": draw(st.sampled_from(["C", "C", "F", "colslice", "rowstep", "neg"])),  # memory layout of the record handed in
             "dtype": draw(st.sampled_from(["float64", "float64", "float64", "int16", "int32", "int64"])),  # integer records = raw ADC counts
-            "refperm": draw(st.integers(0, 2**16))}
+            "refperm": draw(st.integers(0, 2**16)),
+            "unc_nb": draw(st.sampled_from([None, None, 2, 3, 7, 10]))}  # also ask for the covariance factor (moment-matrix method): the matrix itself must not change
 
 
 def judge_bilinear(case):
@@ -176,7 +177,11 @@ def judge_definition(case):
     j.tag("layout=" + case.get("layout", "C"), dt_)
     Yin, Rin = relayout(Y.astype(dt_), case.get("layout", "C")), relayout(R.astype(dt_), case.get("layout", "C"))
     Yk, Rk = Yin.copy(), Rin.copy()
-    out = sut(ssi.build_hank, Yin, Rin, br, method)
+    ukw = {}
+    if method == "cov_mm" and case.get("unc_nb"):
+        ukw = dict(calc_unc=True, nb=int(case["unc_nb"]))
+        j.tag("with-covariance-factor")
+    out = sut(ssi.build_hank, Yin, Rin, br, method, **ukw)
     if not j.check(not raised(out), "definition-raises", lambda: f"{out!r}"):
         return j
     j.check(np.array_equal(Yin, Yk) and np.array_equal(Rin, Rk), "definition-mutates-input", "build_hank modified the records it was given")
